@@ -40,6 +40,13 @@ def singles(pool):
         yield f"intuple:{i}", prog("exp", ("uid",), ("if", ("cmp", ("id", "fld"), "in", ("tup", (("id", i), ("lit", 5)))), T, F)), \
             [{"uid": 1, "fld": 3, i: 3}, {"uid": 1, "fld": 3, i: 4}, {"uid": 1, "fld": 5, i: 4}]  # fmt: skip
         yield f"nosplit:{i}", prog("exp", None, cond_on([i])), [{i: 1}, {i: 0}]
+        c1 = ("cmp", ("id", i), "==", ("lit", 1))
+        yield f"notcond:{i}", prog("exp", ("uid",), ("if", ("not", c1), T, ("elif", c1, ("ret", (("E", "1"),)), None))), [{"uid": 1, i: 1}, {"uid": 1, i: 0}]
+        yield f"notand:{i}", prog("exp", ("uid",), ("if", ("and", ("not", c1), ("or", c1, ("not", ("cmp", ("id", i), ">", ("lit", 3))))), T, F)), [{"uid": 1, i: v} for v in (0, 1, 5)]
+        yield f"inops:{i}", prog("exp", ("uid",), ("if", ("cmp", ("lit", 1), "in", ("id", i)), T,
+                                                   ("elif", ("cmp", ("id", i), "not in", ("tup", (("tup", (("lit", 2), ("lit", 3))), ("lit", 5)))), ("ret", (("E", "1"),)), F))), \
+            [{"uid": 1, i: v} for v in ((1, 2), (3,), (2, 3))]  # fmt: skip
+        yield f"dupsplit:{i}", prog("exp", (i, "uid", i), ("ret", (("A", "1"), ("B", "1")))), [{i: k, "uid": 7} for k in range(4)]
 
 
 def pairs(pool):
